@@ -26,7 +26,7 @@ def s_check(plan, level="model_checking", dq=150, dt=900, opts=None, rule=RULE_S
 F = ["harness/engine_f.c"] + COMMON
 ASSUME_F = [
     "mutations limited to the mutation alphabet of DESIGN.md 3.F (all 640 single-bit flips x 5 sealings, byte sets, version/magic rewrites, byte-order twins; 2-bit flips in thorough)",
-    "base fragments taken from a covering list of configurations (RS (1,1) (4,2) (10,4) (16,16); XOR (3,3,3) (10,5,3) (12,6,4); ISA-L vand/cauchy (4,2) via the reference plug-in; null (2,1))",
+    "base fragments taken from a covering list of configurations (RS (1,1) (4,2) (10,4) (16,16); XOR (3,3,3) (10,5,3) (12,6,4); ISA-L vand/cauchy (4,2) via the reference plug-in; null (2,1); thorough adds RS (2,1) (3,3) (1,31) (31,1) (20,12) (5,3), XOR (5,5,3) (6,6,4) (20,6,4) (15,6,3), ISA-L vand (10,4), cauchy (3,3))",
     "headers that are accepted while claiming a different payload/original length (forged but sealed) are shown to the header predicate only; no listed property defines the other consumers' behaviour on them",
     "liberasurecode_get_version() is trusted as the running library's version",
 ]
@@ -71,7 +71,7 @@ CHECKS = {
     "C13": {"runs": [{"name": "args", "plan": "args", "srcs": A, "san": "asan"}], "level": "model_checking",
             "deadline": {"quick": 150, "thorough": 900},
             "rule": ("full cross product of per-argument alphabets {valid, NULL, boundary, out-of-range} for every public entry point against live rs_vand / flat_xor_hd / "
-                     "isa_l / null instances and dead descriptors, plus the configuration box backend id x k in -1..33 x m in -1..33 x hd x w; every tuple is one real call "
+                     "isa_l / null instances and dead descriptors, plus the configuration box backend id x k x m (every value in -1..33 | -2..40 and 5 | 9 extreme values such as INT_MAX, INT_MIN, 2^16, 2^30) x hd x w (5 | 16 values); every tuple is one real call "
                      "(accepted configurations run a full create-query-encode-decode-reconstruct-destroy cycle); non-trivial = at least one argument is invalid, or the "
                      "configuration was accepted and completed the cycle; ledger compared before/after every call"),
             "assumptions": ["NULL *elements* inside a fragment array and out-of-range indexes inside fragments_needed's lists are not in the alphabet (the statement names neither)",
